@@ -65,19 +65,19 @@ def pairTerms (f : Nat → Nat → α) : List Nat → List α
 /-- the quantity under the square root in `DerivativeEvaluator.__evaluate`:
     Σ_i (σ_i ∂_i)² + Σ_{i<j, cov≠0} 2·cov_ij·∂_i·∂_j with cov_ij = ρ_ij σ_i σ_j -/
 def quadTerms (env : Nat → α) (σ : Nat → α) (e : Expr α) (S : List Nat) : List α :=
-  S.map fun i => Num.pow (Num.mul (σ i) (diff env i e)) (Num.ofNat 2)
+  S.map fun i => Gen.quadTerm (σ i) (diff env i e)
 
 def covTerm (env : Nat → α) (σ : Nat → α) (ρ : Nat → Nat → α) (e : Expr α) (i j : Nat) : α :=
-  let cov := Num.mul (Num.mul (ρ i j) (σ i)) (σ j)
+  let cov := Gen.covOf (ρ i j) (σ i) (σ j)
   if Num.isZero cov then Num.ofNat 0
-  else Num.mul (Num.mul (Num.mul (Num.ofNat 2) cov) (diff env i e)) (diff env j e)
+  else Gen.covYield cov (diff env i e) (diff env j e)
 
 def resultSums (env σ : Nat → α) (ρ : Nat → Nat → α) (e : Expr α) (S : List Nat) : α :=
-  Num.add (Num.sum (quadTerms env σ e S)) (Num.sum (pairTerms (covTerm env σ ρ e) S))
+  Gen.combine (Num.sum (quadTerms env σ e S)) (Num.sum (pairTerms (covTerm env σ ρ e) S))
 
 /-- (value, error) of a derived value under the derivative method -/
 def propagate (env σ : Nat → α) (ρ : Nat → Nat → α) (e : Expr α) : α × α :=
-  (eval env e, Num.sqrt (resultSums env σ ρ e (sources e)))
+  (eval env e, Gen.errOf (resultSums env σ ρ e (sources e)))
 
 end Expr
 end QExPy
